@@ -124,6 +124,50 @@ def explore(ck: Check, max_w: int, n_random: int) -> None:
                 if not ok:
                     ck.fail("scaling-P:does-not-fit", f"unpack('USAGE {usage} PIC {pic}', {buf.hex()}) = {out}: the picture holds {digits} digits "
                                                       f"scaled by 10**{-scale}", {"usage": usage, "picture": pic, "buffer": buf.hex()})
+    # the same items read the way a client reads them: copybook -> schema -> navigator -> value().  Whatever the field holds, the value that
+    # arrives fits the picture (or reading fails), and it is the value the decoder produced -- up to the 31 digits a packed item can hold
+    import io
+    from decimal import Decimal
+    from harness.decode_common import show_val
+    from stingray.cobol_parser import schema_iter
+    from stingray.schema_instance import EBCDIC, SchemaMaker
+    for k in range(max(40, n_random // 60)):
+        kind = rng.choice(["packed", "packed", "zoned"])
+        d = rng.choice([29, 30, 31, 28, 27, rng.randint(1, 31)]) if kind == "packed" else rng.choice([18, 17, rng.randint(1, 18)])
+        n = rng.choice([0, d, rng.randint(0, d), min(d, 4)])
+        sgn = rng.random() < 0.5 if kind == "packed" else False
+        w = (d + 2) // 2 if kind == "packed" else d
+        pic = picture(sgn, d - n, n, style=0)
+        usage = "COMP-3" if kind == "packed" else "DISPLAY"
+        style = rng.random()
+        digits = [9] * d if style < 0.3 else [rng.randrange(10) for _ in range(d)] if style < 0.8 else [9] + [0] * (d - 1)
+        if kind == "packed":
+            nib = ([0] if d % 2 == 0 else []) + digits + [rng.choice([0xC, 0xD]) if sgn else 0xF]
+            buf = bytes(nib[i] * 16 + nib[i + 1] for i in range(0, len(nib), 2))
+        else:
+            buf = bytes(0xF0 + x for x in digits)
+        if rng.random() < 0.2:
+            bb = bytearray(buf)
+            bb[rng.randrange(w)] = rng.randrange(256)
+            buf = bytes(bb)
+        text = f"       01  REC.\n           05  LEAD PIC X(2).\n           05  FLD PIC {pic} USAGE {usage}.\n           05  TAIL PIC X.\n"
+        inp = {"copybook": text, "usage": usage, "picture": pic, "buffer": buf.hex(), "read": "navigator"}
+        ck.case(("nav", usage, pic, buf), nontrivial=True, feature=f"{kind}/through-navigator")
+        ck.oracle_evaluations += 1
+        direct = impl_unpack(usage, pic, buf)
+        try:
+            schema = SchemaMaker.from_json(next(iter(schema_iter(io.StringIO(text)))))
+            unp = EBCDIC()
+            v = unp.nav(schema, b"\xc1\xc2" + buf + b"\xe9").name("FLD").value()
+            out = show_val(v)
+        except BaseException as ex:  # noqa: BLE001
+            from harness.decode_common import enum
+            out = enum(ex)
+        if not is_error(out) and not fits(out, d - n, n):
+            ck.fail(f"{kind}:does-not-fit", f"PIC {pic} USAGE {usage} holding {buf.hex()}, read through a navigator, yields {out}: does not fit "
+                                            f"the picture ({d - n} integer digits, scale {n})", inp)
+        elif out != direct and not (is_error(out) and is_error(direct)):
+            ck.fail(f"{kind}:navigator-differs", f"PIC {pic} USAGE {usage} holding {buf.hex()}: the navigator yields {out}, the decoder {direct}", inp)
     model = ck.driver.run(reqs)
     ck.compare_streams("estruct.unpack vs Decode.unpack (arbitrary bytes)", inputs, impl, model)
     ck.sample({"usage": "COMP-3", "picture": "999", "buffer": "1a3c", "result": impl_unpack("COMP-3", "999", bytes.fromhex("1a3c"))})
